@@ -220,6 +220,27 @@ def gsSearch (S : List Nat) (G : Array (Array K)) (gperm : Array Nat) (nullity c
       if st.1 < t then (t, some i) else st)
     (p0, none)
 
+/-- one pass of the Gram–Schmidt loop after the `pivot < s_tol` test: pivot search, swap,
+    normalisation of the pivot column, orthogonalisation of the later columns (incl. `x0`);
+    returns the new `g_perm`, the new `G` and the pivot (before the square root) -/
+def gsStep (n nullity : Nat) (S : List Nat) (column : Nat) (gperm : Array Nat) (G : Array (Array K)) (p0 : K) :
+    Array Nat × Array (Array K) × K :=
+  let ps := gsSearch S G gperm nullity column p0
+  let gperm' := match ps.2 with
+    | some i => swapP (nullity + 1) gperm column i
+    | none => gperm
+  let pc := pget gperm' column
+  let pivot := Scalar.sqrt ps.1
+  let gpc := vmk n fun i => vget (G.getD pc #[]) i / pivot
+  let G1 := G.setIfInBounds pc gpc
+  let G2 := (List.range' (column + 1) (nullity + 1 - (column + 1))).foldl
+    (fun (G : Array (Array K)) col =>
+      let c := pget gperm' col
+      let gc := G.getD c #[]
+      let dp := dotS S gpc gc
+      G.setIfInBounds c (vmk n fun i => vget gc i - dp * vget gpc i)) G1
+  (gperm', G2, ps.1)
+
 /-- the Gram–Schmidt loop (`fuel = nullity - column`) -/
 def gsLoop (n nullity : Nat) (S : List Nat) : Nat → Nat → Array Nat → Array (Array K) → Except ErrKind (Array (Array K))
   | 0, _, _, G => .ok G
@@ -227,21 +248,8 @@ def gsLoop (n nullity : Nat) (S : List Nat) : Nat → Nat → Array Nat → Arra
     let c0 := pget gperm column
     let p0 := dotS S (G.getD c0 #[]) (G.getD c0 #[])
     if p0 < (sTol : K) then .error .BadRegularization else
-    let ps := gsSearch S G gperm nullity column p0
-    let gperm' := match ps.2 with
-      | some i => swapP (nullity + 1) gperm column i
-      | none => gperm
-    let pc := pget gperm' column
-    let pivot := Scalar.sqrt ps.1
-    let gpc := vmk n fun i => vget (G.getD pc #[]) i / pivot
-    let G1 := G.setIfInBounds pc gpc
-    let G2 := (List.range' (column + 1) (nullity + 1 - (column + 1))).foldl
-      (fun (G : Array (Array K)) col =>
-        let c := pget gperm' col
-        let gc := G.getD c #[]
-        let dp := dotS S gpc gc
-        G.setIfInBounds c (vmk n fun i => vget gc i - dp * vget gpc i)) G1
-    gsLoop n nullity S fuel (column + 1) gperm' G2
+    let st := gsStep n nullity S column gperm G p0
+    gsLoop n nullity S fuel (column + 1) st.1 st.2.1
 
 /-- `T(i,j) = δ_ij - [j ∈ minx] Σ_c G(i,c)·G(j,c)` -/
 def tEntry (S : List Nat) (G : Array (Array K)) (nullity : Nat) (i j : Nat) : K :=
